@@ -194,23 +194,28 @@ func (sp *ServiceProvider) Metadata() *EntityDescriptor {
 		for _, intermediate := range sp.Intermediates {
 			certBytes = append(certBytes, intermediate.Raw...)
 		}
-		keyDescriptors = []KeyDescriptor{
-			{
-				Use: "encryption",
-				KeyInfo: KeyInfo{
-					X509Data: X509Data{
-						X509Certificates: []X509Certificate{
-							{Data: base64.StdEncoding.EncodeToString(certBytes)},
+		// The SP can only decrypt what was encrypted to an RSA key (see
+		// decryptElement), so the certificate is advertised for encryption
+		// only if the SP holds an RSA private key.
+		if _, canDecrypt := sp.Key.(*rsa.PrivateKey); canDecrypt {
+			keyDescriptors = []KeyDescriptor{
+				{
+					Use: "encryption",
+					KeyInfo: KeyInfo{
+						X509Data: X509Data{
+							X509Certificates: []X509Certificate{
+								{Data: base64.StdEncoding.EncodeToString(certBytes)},
+							},
 						},
 					},
+					EncryptionMethods: []EncryptionMethod{
+						{Algorithm: "http://www.w3.org/2001/04/xmlenc#aes128-cbc"},
+						{Algorithm: "http://www.w3.org/2001/04/xmlenc#aes192-cbc"},
+						{Algorithm: "http://www.w3.org/2001/04/xmlenc#aes256-cbc"},
+						{Algorithm: "http://www.w3.org/2001/04/xmlenc#rsa-oaep-mgf1p"},
+					},
 				},
-				EncryptionMethods: []EncryptionMethod{
-					{Algorithm: "http://www.w3.org/2001/04/xmlenc#aes128-cbc"},
-					{Algorithm: "http://www.w3.org/2001/04/xmlenc#aes192-cbc"},
-					{Algorithm: "http://www.w3.org/2001/04/xmlenc#aes256-cbc"},
-					{Algorithm: "http://www.w3.org/2001/04/xmlenc#rsa-oaep-mgf1p"},
-				},
-			},
+			}
 		}
 		if len(sp.SignatureMethod) > 0 {
 			keyDescriptors = append(keyDescriptors, KeyDescriptor{
